@@ -113,6 +113,9 @@ class QuotientWorld(Scenario):
                     "poke": [rng.below(U) for _ in range(rng.between(1, 3))]}
         if r < 55 or not present:
             return {"op": "add", "i": rng.below(U), "api": api}
+        if r >= 55 and r < 60 and U >= 20 and not cfg.get("pressure"):
+            # many additions in one step, so that larger populations (and resizes of them) are reached in short histories
+            return {"op": "bulk", "is": [rng.below(U) for _ in range(rng.between(10, 40))]}
         if r < 80:
             if rng.chance(4, 5):
                 h = rng.choice(present)
@@ -133,6 +136,10 @@ class QuotientWorld(Scenario):
                 return {"op": "resize", "q": self.f.quotient + 1}
             return {"op": "add", "i": rng.below(U), "api": "alt"}
         if r < 87:
+            if rng.chance(3 if self.auto else 1, 4) and len(self.model) >= 4:
+                # the smallest quotient the population still fits into: with auto_expand on, re-inserting crosses the
+                # load threshold and a second, automatic resize happens INSIDE the manual one
+                return {"op": "resize", "q": max(3, len(self.model).bit_length())}
             return {"op": "resize", "q": rng.between(3, min(Q_MAX, self.f.quotient + 2))}
         if r < 90:
             return {"op": "resize", "q": None}
@@ -292,6 +299,20 @@ class QuotientWorld(Scenario):
                     st, v = self.call(lambda: f.remove_alt(h), f"remove_alt({h:#x})")
                 if st == "ok":
                     self.model.discard(h)
+        elif op == "bulk":
+            st = "ok"
+            for i in step["is"]:
+                if i >= len(uni):
+                    continue
+                h = uni[i]
+                if h not in self.model and not self.will_autoresize() and len(self.model) + (2 if cfg["avoid_full"] else 1) > f.size:
+                    continue
+                if self.will_autoresize() and f.quotient >= Q_MAX + 2:
+                    continue
+                st, v = self.call(lambda: f.add_alt(h), f"add_alt({h:#x})")
+                if st != "ok":
+                    break
+                self.model.add(h)
         elif op == "resize":
             q2 = step["q"]
             target = q2 if q2 is not None else f.quotient + 1
@@ -305,6 +326,8 @@ class QuotientWorld(Scenario):
             if st == "ok":
                 # with auto_expand on, re-inserting may legitimately grow the table further
                 ok = f.size == (1 << target) if not self.auto else (f.size >= (1 << target) and f.size & (f.size - 1) == 0)
+                if f.size > (1 << target):
+                    ctx.probe("nested_auto_resize_inside_resize")
                 if not ok or f.size != (1 << f.quotient):
                     raise Violation("resize_size", f"after resize({q2}) size={f.size} quotient={f.quotient}, "
                                                    f"requested {1 << target} (auto_expand={self.auto})", self.full_sig())
